@@ -70,6 +70,7 @@ namespace RecInt
     // If a is odd, ia = inv(a) mod 2^(2^K)
     template <size_t K>
     inline ruint<K>& arazi_qi(ruint<K>& u, const ruint<K>& a) {
+        if (&u == &a) { const ruint<K> aa(a); return arazi_qi(u, aa); } // u is written limb by limb while a is read
         ruint<K-1> t1, t2;
 
         // Get previous u - we're doing step i = m/2
@@ -101,7 +102,8 @@ namespace RecInt
 
     // If a is odd, u = inv(a) mod 2^64
     template <>
-    inline ruint<__RECINT_LIMB_SIZE>& arazi_qi(ruint<__RECINT_LIMB_SIZE>& u, const ruint<__RECINT_LIMB_SIZE>& a) {
+    inline ruint<__RECINT_LIMB_SIZE>& arazi_qi(ruint<__RECINT_LIMB_SIZE>& u, const ruint<__RECINT_LIMB_SIZE>& a0) {
+        const ruint<__RECINT_LIMB_SIZE> a(a0); // u may be the same object as a0
         if (a.Value == 1) {
             u.Value = 1;
             return u;
